@@ -92,6 +92,9 @@ def handle (ws : List String) : Option String :=
   -- delivers the whole keep-alive reply whatever the script (C06.write_all_complete), so the answer is unchanged
   | ["framed.read", _fl, m, v, tbl, evs, _ws] => some (readLine m v tbl evs)
   | ["framed.write", _fl, _m, frames, wsc] => some (writeLine frames wsc)
+  -- a sixth token (`slow=<s>`): every not-ready of the script lasts that many seconds of the runtime's virtual clock; the
+  -- model has no clock — the answer does not depend on it, which is the point
+  | ["framed.write", _fl, _m, frames, wsc, _slow] => some (writeLine frames wsc)
   | _ => none
 
 end Insim.Drv.Conn
